@@ -46,11 +46,7 @@ def groups(resp):
 
 
 def same(got, exp, run):
-    if run.wild:
-        got, exp = [zwmodel.wild(x) for x in got], [zwmodel.wild(x) for x in exp]
-    if not run.taint:
-        return got == exp
-    return sorted(got) == sorted(exp)
+    return zwmodel.compare(got, exp, run) == "ok"
 
 
 def program_cmds(t, strms, deep):
